@@ -477,6 +477,11 @@ func checkC08(c *Ctx) {
 		}
 		R.Floor("C08-interruptible", 2)
 	}
+	// ---- C08-onclose-id: "calls the OnClose handler exactly once with that connection's ID": the argument is the ID this
+	// connection was given (rule C09-onclose)
+	if c.importRules(checkC09, func(o report.Obligation) bool { return o.Rule == "C09-onclose" }, "C08-onclose-id", " - OnClose is told about another connection than the one that ended") > 0 {
+		c.R.Floor("C08-onclose-id", 1)
+	}
 	c.R.NotDecided = append(c.R.NotDecided, "final census: no goroutine or descriptor of the connection remains (run-time)", "handlers that never return")
 	c.R.Assumptions = append(c.R.Assumptions, "WaitGroup.Wait returns only after the counter reached zero; Add happens-before Wait because both run on the connection goroutine")
 }
@@ -667,6 +672,59 @@ func generatorCounter(v ssa.Value, m *serverModel) (bool, string) {
 	return true, "ID handed out by a sequence object private to Run (zero-initialised local, used only through " + fname(g) + ", which increments and returns its counter), once per accept-loop iteration before newConn"
 }
 
+// serverFieldCounter: the ID is read from an int field of the Server right
+// after the field's only store in gldap, `s.f++`, both in Run under one
+// uninterrupted hold of s.mu (write mode): every read follows an increment of
+// its own in the same critical section, so no two reads see the same value.
+func (c *Ctx) serverFieldCounter(idArg ssa.Value, m *serverModel) (bool, string) {
+	ld, ok := an.Strip(idArg).(*ssa.UnOp)
+	if !ok || ld.Op != token.MUL {
+		return false, ""
+	}
+	fa, ok := ld.X.(*ssa.FieldAddr)
+	if !ok || !an.TypeIs(fa.X.Type(), G, "Server") {
+		return false, ""
+	}
+	name := an.FieldAddrName(fa)
+	var stores []fieldStore
+	for _, fs := range fieldStores(c.shippedFuncs(G), G, "Server", name) {
+		stores = append(stores, fs)
+	}
+	if len(stores) != 1 || stores[0].Fn != m.run {
+		return false, sprintf("Server.%s is stored in %d places (expected the one increment in Run)", name, len(stores))
+	}
+	st := stores[0].Store
+	bo, ok := an.Strip(st.Val).(*ssa.BinOp)
+	if !ok || bo.Op != token.ADD {
+		return false, "Server." + name + " is not incremented by one"
+	}
+	if k, isK := an.IntConst(bo.Y); !isK || k != 1 {
+		return false, "Server." + name + " is not incremented by one"
+	}
+	if _, isF := fieldLoad(bo.X, G, "Server", name); !isF {
+		return false, "Server." + name + " is not incremented from its own value"
+	}
+	ls := an.LockSets(m.run, nil)
+	if !ls[st].Holds("s.mu", false) || !ls[ld].Holds("s.mu", false) {
+		return false, "Server." + name + " is not incremented and read under s.mu (write mode)"
+	}
+	if !an.InstrDominates(st, ld) {
+		return false, "the ID is read before Server." + name + " is incremented"
+	}
+	unlock := callPred(func(cc *ssa.CallCommon) bool { k, _ := an.LockOp(cc); return k == "Unlock" || k == "RUnlock" })
+	// no path from the increment to the read releases the lock in between (without passing the increment again)
+	stOrLd := func(in ssa.Instruction) bool { return in == ssa.Instruction(st) || in == ssa.Instruction(ld) }
+	for _, ci := range an.Calls(m.run) {
+		if !unlock(ci) {
+			continue
+		}
+		if an.Search(an.After(st), isInstr(ci), stOrLd) != nil && an.Search(an.After(ci), isInstr(ld), isInstr(st)) != nil {
+			return false, "the lock can be released between the increment of Server." + name + " and the read that takes the ID"
+		}
+	}
+	return true, "Server." + name + " is incremented (its only store) and read in one critical section of s.mu in Run: each ID follows an increment of its own"
+}
+
 func checkC09(c *Ctx) {
 	R := c.R
 	m := c.serverModel()
@@ -690,6 +748,10 @@ func checkC09(c *Ctx) {
 			ok, why = true, why2
 		} else if ok3, why3 := generatorCounter(an.Strip(idArg), m); ok3 {
 			ok, why = true, why3
+		} else if ok4, why4 := c.serverFieldCounter(idArg, m); ok4 {
+			ok, why = true, why4
+		} else if why4 != "" {
+			why = why4
 		} else if why3 != "" {
 			why = why3
 		}
@@ -1211,10 +1273,27 @@ func checkC12(c *Ctx) {
 		guardOK := false
 		for _, fct := range an.BranchFacts(add.Block()) {
 			cond, neg := an.Not(fct.Cond)
-			if c.isShutdownErrAtom(cond) {
+			// `if s.stopping() {...}` with `func (s *Server) stopping() bool { return s.shutdownCtx.Err() != nil }`: the
+			// accessor reads the shutdown state where it is called
+			viaHelper, helperTrueMeansNil := false, false
+			if hc, isCall := cond.(*ssa.Call); isCall {
+				if g := an.StaticCallee(hc.Common()); g != nil && an.InModule(g) && len(g.Blocks) > 0 && len(an.Returns(g)) == 1 && runLS[hc].Holds("s.mu", false) {
+					if res := an.ReturnResults(an.Returns(g)[0]); len(res) == 1 {
+						inner, ineg := an.Not(res[0])
+						if c.isShutdownErrAtom(inner) {
+							_, tmn, _ := an.NilCheck(inner)
+							viaHelper, helperTrueMeansNil = true, tmn != ineg
+						}
+					}
+				}
+			}
+			if viaHelper || c.isShutdownErrAtom(cond) {
 				x, trueMeansNil, _ := an.NilCheck(cond)
+				if viaHelper {
+					trueMeansNil = helperTrueMeansNil
+				}
 				// the shutdown state must be READ inside the critical section, not just tested there
-				if ec, isCall := an.Strip(x).(*ssa.Call); isCall && !runLS[ec].Holds("s.mu", false) {
+				if ec, isCall := an.Strip(x).(*ssa.Call); !viaHelper && isCall && !runLS[ec].Holds("s.mu", false) {
 					continue
 				}
 				pol := fct.True != neg
